@@ -8,6 +8,7 @@ mod c06;
 mod c07;
 mod c02;
 mod c03;
+mod c04;
 mod c05;
 mod c08;
 mod c09;
@@ -16,6 +17,7 @@ mod c14;
 mod c15;
 mod c16;
 mod c17;
+mod c10;
 mod c11;
 mod c12;
 mod c18;
@@ -58,6 +60,7 @@ fn run(name: &str, args: &Value) -> Value {
         "c20_script" => c20::script(args),
         "c20_tuple" => c20::tuple(args),
         "c18_lifecycle" => c18::lifecycle(args),
+        "c10_graceful_stop" => c10::graceful_stop(args),
         "c11_limits" => c11::limits(args),
         "c12_ws_batch" => c12::ws_batch(args),
         "c12_http_batch" => c12::http_batch(args),
@@ -65,6 +68,7 @@ fn run(name: &str, args: &Value) -> Value {
         "c02_ws_batch_with_subscription" => c02::ws_batch_with_subscription(args),
         "c03_fast_reply" => c03::fast_reply(args),
         "c03_subid_collision" => c03::subid_collision(args),
+        "c04_notifications" => c04::notifications(args),
         "c05_array_vs_single" => c05::array_vs_single(args),
         "c05_close_in_array" => c05::close_in_array(args),
         "c05_drop_full_queue" => c05::drop_full_queue(args),
